@@ -81,6 +81,9 @@ package parser
 //@   loop 0 step [one-token] len(ls.prevToken) == hdr(len(ls.prevToken)) + 1
 //@   loop 0 step [indent-token] implies(hdr(ls.spaces) > hdr(prevIndent(ls.level)), as("*antlr.CommonToken", ls.prevToken[len(ls.prevToken)-1]).tokenType == SyslLexerINDENT)
 //@   loop 0 step [dedent-token] implies(hdr(ls.spaces) < hdr(prevIndent(ls.level)), as("*antlr.CommonToken", ls.prevToken[len(ls.prevToken)-1]).tokenType == SyslLexerDEDENT)
+//@   mark @after:github.com/antlr/antlr4/runtime/Go/antlr.(*BaseLexer).NextToken#1 afterNext
+//@   ensures [bypass] old(len(ls(l).prevToken)) == 0 && at("afterNext", ls(l).gotNewLine) && bypassType(at("afterNext", callresult).GetTokenType()) ==> result == at("afterNext", callresult) && ls(l).level == at("afterNext", ls(l).level) && len(ls(l).prevToken) == 0 && ls(l).spaces == at("afterNext", ls(l).spaces) && ls(l).gotNewLine
+//@   ensures [hidden-mid-line] old(len(ls(l).prevToken)) == 0 && !at("afterNext", ls(l).gotNewLine) && at("afterNext", callresult).GetChannel() == antlr.TokenHiddenChannel ==> result == at("afterNext", callresult) && ls(l).level == at("afterNext", ls(l).level) && len(ls(l).prevToken) == 0 && ls(l).spaces == 0
 //@   ensures [dequeue-frame] implies(old(len(ls(l).prevToken)) > 0, ls(l).level == old(ls(l).level) && ls(l).spaces == old(ls(l).spaces) && ls(l).gotNewLine == old(ls(l).gotNewLine) && len(ls(l).prevToken) == old(len(ls(l).prevToken)) - 1)
 
 //@ func github.com/antlr/antlr4/runtime/Go/antlr.NewCommonToken
@@ -95,3 +98,15 @@ package parser
 //@ lemma cmpScaleInvariant(sp int, pv int) bool = ((2*sp > 2*pv) == (sp > pv)) && ((3*sp > 3*pv) == (sp > pv)) && ((4*sp > 4*pv) == (sp > pv)) && ((2*sp < 2*pv) == (sp < pv)) && ((3*sp < 3*pv) == (sp < pv)) && ((4*sp < 4*pv) == (sp < pv)) && ((2*sp == 2*pv) == (sp == pv)) && ((3*sp == 3*pv) == (sp == pv)) && ((4*sp == 4*pv) == (sp == pv))
 //@ lemma spacesStep(t string, k int) bool = k >= 1 && k <= len(t) ==> spacesUpTo(t, k) == spacesUpTo(t, k-1) + wsWeight(t[k-1])
 //@ lemma spacesNonneg0(t string) bool = spacesUpTo(t, 0) == 0
+
+// ---- C03: newline / blank-line / comment tokens bypass the indentation processing entirely
+
+// A token's type and channel are fixed properties of the token object.
+//@ func iface:github.com/antlr/antlr4/runtime/Go/antlr.Token.GetTokenType
+//@   trusted
+//@   deterministic
+//@ func iface:github.com/antlr/antlr4/runtime/Go/antlr.Token.GetChannel
+//@   trusted
+//@   deterministic
+
+//@ spec bypassType(t int) bool = t == SyslLexerNEWLINE || t == SyslLexerNEWLINE_2 || t == SyslLexerEMPTY_LINE || t == SyslLexerE_NL || t == SyslLexerE_EMPTY_LINE || t == SyslLexerTMPL_NL || t == SyslLexerINDENTED_COMMENT || t == SyslLexerEMPTY_COMMENT || t == SyslLexerE_INDENTED_COMMENT || t == SyslLexerE_DOT_NAME_NL
